@@ -102,9 +102,22 @@ func showRecGo(rec *hostsfile.Record, err error) string {
 	return fmt.Sprintf("addr=%s;names=%s;err=%s", showAddrGo(rec.Addr), showNamesGo(rec.Names), showRecErrGo(err))
 }
 
+// preRecord is the receiver UnmarshalText is called on: a zero record (0), or a record that has
+// been used before — one old name (1), one old name in a slice with spare capacity as a record
+// reused after a longer line has (2), three old names (3), no name but retained capacity (4).
 func preRecord(pre string) *hostsfile.Record {
-	if pre == "1" {
-		return &hostsfile.Record{Addr: netip.AddrFrom4([4]byte{9, 9, 9, 9}), Names: []string{"old"}}
+	old := netip.AddrFrom4([4]byte{9, 9, 9, 9})
+	switch pre {
+	case "1":
+		return &hostsfile.Record{Addr: old, Names: []string{"old"}}
+	case "2":
+		ns := make([]string, 1, 4)
+		ns[0] = "old"
+		return &hostsfile.Record{Addr: old, Names: ns}
+	case "3":
+		return &hostsfile.Record{Addr: old, Names: []string{"o1", "o2", "o3"}}
+	case "4":
+		return &hostsfile.Record{Addr: old, Names: make([]string, 0, 3)}
 	}
 	return &hostsfile.Record{}
 }
@@ -415,7 +428,7 @@ func genC07(rng *rand.Rand, tier string) (cases []string) {
 		case 2, 3, 4:
 			cases = append(cases, c07RoundtripCase(genHostsLine(rng)))
 		default:
-			cases = append(cases, c07UnmarshalCase(pick(rng, "0", "0", "0", "1"), genHostsLine(rng)))
+			cases = append(cases, c07UnmarshalCase(pick(rng, "0", "0", "0", "1", "2", "2", "3", "4"), genHostsLine(rng)))
 		}
 	}
 	// the formatter model behind `formatAddr` (Go/NetipFmt.lean), formerly contract ADDR-RT
